@@ -7,6 +7,6 @@ cd /verif/harness
 cargo build --release --offline
 cargo build --profile dbg --bin jbkv-reader --offline
 if [ -f /verif/shim/faultfs.c ]; then
-    cc -O2 -shared -fPIC -o /verif/target/faultfs.so /verif/shim/faultfs.c -ldl
+    cc -O2 -shared -fPIC -o /verif/target/faultfs.so /verif/shim/faultfs.c -ldl -lpthread
 fi
 echo setup done
